@@ -276,8 +276,14 @@ def gen_arenasim(tier, seed, outdir, mqv, root):
 
 AGED_CFGS = [{"rx": 128, "tx": tx, "client_id": b("ag%d" % tx), "ka": 0, "sei": 300} for tx in (96, 160, 256, 320, 1152)]
 # (history profile, overrides, pairs quick, pairs thorough)
-AGED = [("arena", {}, 15, 150), ("flow", {}, 10, 100), ("cancel", {}, 10, 100), ("faults", {}, 10, 100), ("limits", {}, 10, 100),
-        ("arena", {"calls": 400}, 3, 30), ("arena", {"calls": 3000, "max_conns": 40}, 0, 6)]
+# "keep": the capacity program runs on the connection the history ended on (if alive), so the history's
+# CONNACKs carry no limits, like the fresh twin's; otherwise it starts on a new, resumed connection
+PLAIN = {"rm": [0], "maxpkt": [0], "maxqos": [2], "ska": [0], "assign_client_id": False, "keep": True}
+AGED = [("arena", {}, 10, 100), ("flow", {}, 6, 60), ("cancel", {}, 6, 60), ("faults", {}, 6, 60), ("limits", {}, 8, 80),
+        ("arena", PLAIN, 10, 100), ("flow", PLAIN, 8, 80), ("cancel", PLAIN, 8, 80), ("faults", PLAIN, 8, 80),
+        ("sessions", PLAIN, 8, 80),
+        ("arena", {"calls": 400}, 2, 20), ("arena", dict(PLAIN, calls=400), 2, 20),
+        ("arena", {"calls": 3000, "max_conns": 40}, 0, 4), ("arena", dict(PLAIN, calls=3000, max_conns=40), 0, 4)]
 
 
 def gen_aged(tier, seed, outdir, mqv, root):
@@ -289,8 +295,11 @@ def gen_aged(tier, seed, outdir, mqv, root):
         if n == 0:
             continue
         pf = os.path.join(outdir, "profile-aged-%d.json" % i)
-        json.dump(dict(PROFILES[pname], **over), open(pf, "w"))
-        msg = run([mqv, "aged", str(seed * 100 + i), str(n), pf, os.path.join(outdir, "aged-%d-%s.trace" % (i, pname)), cf])
+        prof = dict(PROFILES[pname], **over)
+        keep = prof.pop("keep", False)
+        json.dump(prof, open(pf, "w"))
+        msg = run([mqv, "aged", str(seed * 100 + i), str(n), pf, os.path.join(outdir, "aged-%d-%s.trace" % (i, pname)), cf]
+                  + (["keep"] if keep else []))
         samples.append({"group": "twins-aged", "history_profile": pname, "overrides": over, "pairs": n, "harness": msg})
     json.dump({"tool_errors": [], "samples": samples}, open(os.path.join(outdir, "meta.json"), "w"))
 
